@@ -125,7 +125,7 @@ def run(pid, tier, seed, args, t0):
     failed = [o for o in obls if o['status'] == 'failed']
     unknown = [o for o in obls if o['status'] == 'unknown']
     # ---- native: replay counter-models and run the bounded stand-in
-    native = dict(functions={}, evaluations=0); native_fail = []
+    native = dict(functions={}, evaluations=0); native_fail = []; scenario_known = []
     replays = {}
     for o in failed:
         if o.get('model') and o.get('function'):
@@ -147,10 +147,15 @@ def run(pid, tier, seed, args, t0):
                 native['scenarios'] = {k: v for k, v in sc.items() if k != 'failure'}
                 if sc.get('failure'):
                     native_fail.append(dict(kind='scenario', clause=sc.get('clause', 'property statement on a concrete history'), function='scenario:' + pid, inputs=sc['failure']))
+                # failures the explorer itself attributes to a recorded finding (identified by the failing statement): listed findings are reported as such, unlisted ones are violations
+                for kid, info in (sc.get('known') or {}).items():
+                    listed = [k for k in load_known(pid) if k['id'] == kid]
+                    if listed: scenario_known.append('KNOWN-FINDING: property=%s %s [%s; met in %s]' % (pid, listed[0]['summary'], kid, info.get('scenario')))
+                    else: native_fail.append(dict(kind='scenario', clause=sc.get('clause', ''), function='scenario:' + pid, inputs=dict(kind=kid, **info)))
             except Exception:
                 native['error'] = traceback.format_exc()
     # ---- known findings
-    known = load_known(pid); known_lines = []
+    known = load_known(pid); known_lines = list(scenario_known)
     def is_known(desc):
         for k in known:
             if 'match' not in k: continue
